@@ -601,7 +601,15 @@ func c13shrink(c *Ctx, r *Result) {
 		if !ok {
 			continue
 		}
-		if p, rel, ok := env.condFact(ifi.Cond, true); ok && rel == ">=0" && (p.equal(P("chunksize*scaled", 1, "dims", -1))) {
+		if p, rel, ok := env.condFact(ifi.Cond, true); ok && isBeyondExtentFact(polyFact{P: p, Rel: rel}) {
+			skip = true
+		}
+		// the test may live in a bool helper
+		cond := ifi.Cond
+		if u, isU := cond.(*ssa.UnOp); isU && u.Op == token.NOT {
+			cond = u.X
+		}
+		if call, isCall := cond.(*ssa.Call); isCall && c.helperTrueMeansBeyondExtent(env, call) {
 			skip = true
 		}
 	}
